@@ -14,6 +14,10 @@ import MantraDex.Model.Pool
 import MantraDex.Model.SsMon
 import MantraDex.Spec.Invariant
 import MantraDex.Proofs.NumLemmas
+import Mathlib.Tactic.Linarith
+import Mathlib.Tactic.Ring
+import Mathlib.Tactic.Positivity
+import Mathlib.Tactic.Push
 
 set_option linter.unusedSimpArgs false
 
@@ -25,46 +29,147 @@ open MantraDex
 theorem newton_ok_is_near_fixpoint (fuel thr : Nat) (f : Nat → R Nat) (x0 v : Nat)
     (h : newtonIter fuel thr f x0 = .ok v) :
     ∃ prev, f prev = .ok v ∧ absDiff v prev ≤ thr := by
-  sorry
+  induction fuel generalizing x0 with
+  | zero => simp [newtonIter] at h
+  | succ n ih =>
+    unfold newtonIter at h
+    simp only [bind_ok] at h
+    obtain ⟨nxt, hf, h⟩ := h
+    split at h
+    next hle =>
+      simp only [pure_ok] at h; subst h; exact ⟨x0, hf, hle⟩
+    next => exact ih _ h
 
 /-- out of iterations ⇒ `ConvergeError` (with zero fuel nothing is ever returned) -/
 theorem newton_zero_fuel (thr : Nat) (f : Nat → R Nat) (x0 : Nat) :
     newtonIter 0 thr f x0 = .error .converge := by
-  sorry
+  rfl
 
 /-- the y-solver of a swap therefore only returns near-fixpoints of its integer Newton step -/
 theorem stableswap_y_is_near_fixpoint {p : PoolInfo} {od ad : String} {apd ofd amp : Nat}
     {dir : Direction} {y : Nat} (h : calculateStableswapY p od ad apd ofd amp dir = .ok y) :
     ∃ c b d prev, stableYStep c b d prev = .ok y ∧ absDiff y prev ≤ 1 := by
-  sorry
+  unfold calculateStableswapY at h
+  simp only [bind_ok] at h
+  obtain ⟨ann, _, h⟩ := h
+  split at h
+  · simp only [bind_ok, pure_ok] at h
+    obtain ⟨_, _, _, _, d, _, _, _, _, _, _, _, _, _, _, _, c, _, _, _, b, _, y', hy, hfit⟩ := h
+    simp only [fit_ok] at hfit
+    obtain ⟨_, rfl⟩ := hfit
+    obtain ⟨prev, h1, h2⟩ := newton_ok_is_near_fixpoint _ _ _ _ _ hy
+    exact ⟨c, b, d, prev, h1, h2⟩
+  · simp [bind, Except.bind] at h
 
 /-- the exact invariant polynomial is strictly increasing in D (Ann ≥ 1, positive balances) -/
 theorem G_strictMono (ann : Nat) (xs : List Nat) (hann : 1 ≤ ann) (d : Nat) :
     Spec.G ann xs d < Spec.G ann xs (d + 1) := by
-  sorry
+  unfold Spec.G
+  simp only []
+  generalize xs.length = n
+  have hK : (0:Int) ≤ ((n : Int) ^ n * (Spec.listProd xs : Nat)) := by positivity
+  generalize ((n : Int) ^ n * (Spec.listProd xs : Nat)) = K at hK ⊢
+  generalize ((Spec.listSum xs : Nat) : Int) = S
+  have hp : (d:Int)^(n+1) < ((d+1 : Nat):Int)^(n+1) := by
+    exact_mod_cast Nat.pow_lt_pow_left (Nat.lt_succ_self d) (by omega)
+  have ha : (0:Int) ≤ (ann:Int) - 1 := by omega
+  have := mul_nonneg ha hK
+  push_cast at hp ⊢
+  nlinarith
 
 theorem G_mono (ann : Nat) (xs : List Nat) (hann : 1 ≤ ann) {d e : Nat} (h : d ≤ e) :
     Spec.G ann xs d ≤ Spec.G ann xs e := by
-  sorry
-
-/-- the certificate pins ⌊D⌋ down uniquely: two values that both pass are equal -/
-theorem dCert_unique (ann : Nat) (xs : List Nat) (hann : 1 ≤ ann) (d e : Nat)
-    (hd : Spec.dCert ann xs d = true) (he : Spec.dCert ann xs e = true) : d = e := by
-  sorry
+  induction e with
+  | zero => have : d = 0 := by omega
+            subst this; exact Int.le_refl _
+  | succ k ih =>
+    rcases Nat.lt_or_ge d (k+1) with hlt | hge
+    · exact Int.le_trans (ih (by omega)) (Int.le_of_lt (G_strictMono ann xs hann k))
+    · have : d = k + 1 := by omega
+      subst this; exact Int.le_refl _
 
 /-- … and any integer below / above it has the corresponding sign of G (so comparing two exact
     invariants through their certified floors is sound) -/
 theorem dCert_sound (ann : Nat) (xs : List Nat) (hann : 1 ≤ ann) (d : Nat)
     (hd : Spec.dCert ann xs d = true) (e : Nat) :
     (e ≤ d → Spec.G ann xs e ≤ 0) ∧ (d < e → 0 < Spec.G ann xs e) := by
-  sorry
+  unfold Spec.dCert at hd
+  simp only [Bool.and_eq_true, decide_eq_true_eq] at hd
+  obtain ⟨h1, h2⟩ := hd
+  constructor
+  · intro h; exact Int.le_trans (G_mono ann xs hann h) h1
+  · intro h; exact Int.lt_of_lt_of_le h2 (G_mono ann xs hann (by omega))
+
+/-- the certificate pins ⌊D⌋ down uniquely: two values that both pass are equal -/
+theorem dCert_unique (ann : Nat) (xs : List Nat) (hann : 1 ≤ ann) (d e : Nat)
+    (hd : Spec.dCert ann xs d = true) (he : Spec.dCert ann xs e = true) : d = e := by
+  have sd := dCert_sound ann xs hann d hd
+  have se := dCert_sound ann xs hann e he
+  rcases Nat.lt_trichotomy d e with h | h | h
+  · have a := (sd e).2 h
+    have b := (se e).1 (Nat.le_refl _)
+    omega
+  · exact h
+  · have a := (se d).2 h
+    have b := (sd d).1 (Nat.le_refl _)
+    omega
 
 /-- bisection keeps its invariant: started with `f lo` true and `f hi` false it returns a point
     where `f` flips (for monotone `f`, the unique one) -/
 theorem bisect_flips (f : Nat → Bool) :
     ∀ (fuel lo hi : Nat), lo < hi → f lo = true → f hi = false → hi - lo ≤ 2 ^ fuel →
       f (Spec.bisect f fuel lo hi) = true ∧ f (Spec.bisect f fuel lo hi + 1) = false := by
-  sorry
+  intro fuel
+  induction fuel with
+  | zero =>
+    intro lo hi hlt hlo hhi hd
+    have : hi = lo + 1 := by simp at hd; omega
+    subst this
+    simp only [Spec.bisect]
+    exact ⟨hlo, hhi⟩
+  | succ k ih =>
+    intro lo hi hlt hlo hhi hd
+    unfold Spec.bisect
+    split
+    next hle =>
+      have : hi = lo + 1 := by omega
+      subst this
+      exact ⟨hlo, hhi⟩
+    next hgt =>
+      simp only []
+      have hp : 2 ^ (k+1) = 2 * 2 ^ k := by rw [Nat.pow_succ, Nat.mul_comm]
+      split
+      next hm => exact ih _ _ (by omega) hm hhi (by omega)
+      next hm =>
+        have hm' : f ((lo + hi) / 2) = false := by simpa using hm
+        exact ih _ _ (by omega) hlo hm' (by omega)
+
+theorem getSwapComputation_sum {g s : Nat} {fc : FeesComputation} {c : SwapComputation}
+    (h : getSwapComputation g s fc = .ok c) :
+    c.ret + c.swapFee + c.protocolFee + c.burnFee + c.extraFees = g := by
+  unfold getSwapComputation at h
+  simp only [bind_ok, ckSub_ok, ckAdd_ok, fit_ok, pure_ok] at h
+  obtain ⟨r1, ⟨h1, rfl⟩, r2, ⟨h2, rfl⟩, r3, ⟨h3, rfl⟩, r4, ⟨h4, rfl⟩, _, _, _, _, _, _, _, _,
+    _, ⟨_, rfl⟩, _, _, _, ⟨_, rfl⟩, _, ⟨_, rfl⟩, _, ⟨_, rfl⟩, _, ⟨_, rfl⟩, rfl⟩ := h
+  simp only []
+  omega
+
+theorem dec_round_trip {a ap x y : Nat} (hap : ap ≤ 18)
+    (h1 : decWithPrecision a ap = .ok x) (h2 : decToUintWithPrecision x ap = .ok y) : y = a := by
+  unfold decToUintWithPrecision at h2
+  rw [if_neg (by omega)] at h2
+  simp only [Except.ok.injEq] at h2
+  subst h2
+  unfold decWithPrecision decFromAtomics at h1
+  split at h1
+  · simp only [fit_ok] at h1
+    obtain ⟨_, rfl⟩ := h1
+    exact Nat.mul_div_cancel _ (Nat.pow_pos (by decide))
+  · have : ap = 18 := by omega
+    subst this
+    simp at h1
+    subst h1
+    simp
 
 /-- an accepted stableswap computation never pays out more than the ask reserve: the gross output
     is `ask reserve − new pool` (checked subtraction) -/
@@ -72,8 +177,30 @@ theorem ss_output_le_reserve {p : PoolInfo} {amp : Nat} {oc ac : Coin} {op ap of
     {c : SwapComputation} (hap : ap ≤ 18)
     (h : computeSwapStable p amp oc ac op ap offer = .ok c) :
     c.ret + c.swapFee + c.protocolFee + c.burnFee + c.extraFees ≤ ac.amount := by
-  sorry
-
+  unfold computeSwapStable at h
+  simp only [bind_ok] at h
+  obtain ⟨apd, hapd, od, hod, h⟩ := h
+  split at h
+  · simp only [bind_ok, pure_ok] at h
+    obtain ⟨_, _, y, hy, h⟩ := h
+    have fin : ∀ {askAmt newPool gross sl : Nat} {fc : FeesComputation},
+        decToUintWithPrecision apd ap = .ok askAmt → ckSub askAmt newPool = .ok gross →
+        getSwapComputation gross sl fc = .ok c →
+        c.ret + c.swapFee + c.protocolFee + c.burnFee + c.extraFees ≤ ac.amount := by
+      intro askAmt newPool gross sl fc haa hg hgs
+      have := dec_round_trip hap hapd haa
+      subst this
+      simp only [ckSub_ok] at hg
+      rw [getSwapComputation_sum hgs]
+      omega
+    split at h
+    all_goals
+      simp only [bind_ok, pure_ok] at h
+    · obtain ⟨_, _, newPool, _, askAmt, haa, gross, hg, _, _, _, _, _, _, _, _, _, _, _, _, fc, _, h⟩ := h
+      exact fin haa hg h
+    · obtain ⟨newPool, _, askAmt, haa, gross, hg, _, _, _, _, _, _, _, _, _, _, fc, _, h⟩ := h
+      exact fin haa hg h
+  · simp [bind, Except.bind] at h
 /-! Non-vacuity: a concrete in-range quote and its certified exact reference -/
 example : Spec.dCert 200 [1000000000000, 1000000000000] 2000000000000 = true := by decide
 
